@@ -28,3 +28,13 @@ def fresh_block_store():
     os.chdir(d)
     bs.DefaultBlockStore.instance = bs.BlockStore('chain.db')
     return bs.DefaultBlockStore.instance
+
+
+def known_findings(prop):
+    """entries of the committed known-findings file for a property (read-only; never written at run time)"""
+    import json
+    p = os.path.join(os.path.dirname(os.path.dirname(os.path.abspath(__file__))), 'known_findings.json')
+    try:
+        return [k for k in json.load(open(p)).get('known', []) if k.get('property') == prop]
+    except Exception:
+        return []
